@@ -52,6 +52,7 @@ type Act struct {
 	loopWrites map[*ssa.BasicBlock]*writeLog
 	frameMemo  *frameInfo
 	loopHead   map[*ssa.BasicBlock]*State
+	locks      []string // mutex addresses acquired by this function
 	callPos  token.Pos
 }
 
@@ -367,7 +368,7 @@ func (a *Act) autoInvs(h *ssa.BasicBlock, st *State) [][2]string {
 		return out
 	}
 	for _, k := range sortedKeys(wl.heaps) {
-		if strings.HasPrefix(k, "IT:") || k == "G:chancap" || k == "G:chanclosed" || anyKey[k] {
+		if strings.HasPrefix(k, "IT:") || k == "G:chancap" || k == "G:chanclosed" || k == "G:held" || k == "G:lockuses" || anyKey[k] {
 			continue
 		}
 		srt := a.vc.heapSorts[k]
@@ -744,6 +745,9 @@ func (a *Act) loadField(s *State, base string, t types.Type, i int) Val {
 	if _, ok := f.T.Underlying().(*types.Signature); ok {
 		v.Fn = &FnVal{Origin: a.fieldKey(t, f.Name)}
 	}
+	if len(a.eng.guarded) > 0 {
+		v.Guard = a.guardOf(t, f.Name, base)
+	}
 	return v
 }
 
@@ -808,7 +812,9 @@ func (a *Act) load(st *State, p Val, pos token.Pos) Val {
 			}
 			return a.getPath(cv, p.P.Path)
 		case ptrField:
-			return a.loadField(st, p.P.Base, p.P.ST, p.P.Field)
+			v := a.loadField(st, p.P.Base, p.P.ST, p.P.Field)
+			a.checkGuard(st, v.Guard, false, "guarded field", pos)
+			return v
 		}
 	}
 	a.nilCheck(st, p, pos)
@@ -881,6 +887,10 @@ func (a *Act) storeTo(st *State, p Val, v Val, pos token.Pos) {
 			}
 			return
 		case ptrField:
+			if len(a.eng.guarded) > 0 {
+				si := a.vc.g.structInfoOf(p.P.ST)
+				a.checkGuard(st, a.guardOf(p.P.ST, si.Fields[p.P.Field].Name, p.P.Base), true, "guarded field", pos)
+			}
 			a.storeField(st, p.P.Base, p.P.ST, p.P.Field, v)
 			return
 		}
